@@ -87,7 +87,7 @@ func solTypeOf(src, expr string) (string, error) {
 
 // solGuard returns one report per site; an error means the Solidity source could not be analysed (no verdict).
 func solGuard(l *Loaded, prop string) ([]*OblReport, error) {
-	data, err := os.ReadFile("/repo/solidity/contracts/Hub2.sol")
+	data, err := os.ReadFile(repoRoot + "/solidity/contracts/Hub2.sol")
 	if err != nil {
 		return nil, err
 	}
